@@ -114,6 +114,7 @@ def run_history(case):
 
     st, S = step("solve", solver.solve)
     cap = len(T) + 6
+    excluded = set()      # chain mode: timings legitimately excluded so far (sequential model, as in C13)
     while True:
         if st == "exc":
             break
@@ -148,28 +149,37 @@ def run_history(case):
             st, S = step("find_another_solution", solver.find_another_solution)
         else:
             # chain mixing the two request kinds: the variable request must change the variable
-            if rng.random() < 0.5:
-                tn = rng.choice([t["name"] for t in spec["tasks"]])
+            mandatory = [t["name"] for t in spec["tasks"] if not t.get("optional")]
+            if rng.random() < 0.5 and mandatory:
+                tn = rng.choice(mandatory)
                 which = rng.choice(["start", "end"])
                 var = b.tasks[tn]._start if which == "start" else b.tasks[tn]._end
                 prev_S = S
+                old = prev_S["hook"]["tasks"][tn][which]
+                idx = 2 if which == "start" else 3
+                excluded |= {kk for kk in T if dict((e[0], e[idx]) for e in kk)[tn] == old}
                 st, S = step(f"for_variable({tn}.{which})", lambda: solver.find_another_solution_for_variable(var))
                 if st == "sol":
-                    old = prev_S["hook"]["tasks"][tn][which]
                     new = S["hook"]["tasks"][tn][which]
                     acc.count(acc.clauses, f"C12.variable_changed:{'T' if old != new else 'F'}")
                     if old == new:
                         acc.violation("C12.variable_unchanged", "same", feats, {"task": tn, "which": which, "value": old})
-                elif st == "false":
-                    # legitimate iff no unvisited timing has another value for that variable ... the
-                    # chain ends here either way; exhaustion is only judged in 'another' mode
-                    acc.count(acc.clauses, "C12.variable_request_failed")
-                    break
             else:
+                excluded.add(k)
                 st, S = step("find_another_solution", solver.find_another_solution)
-                if st == "false":
-                    acc.count(acc.clauses, "C12.chain_end")
-                    break
+            if st == "sol":
+                k2 = hist.key_of_sched(S)
+                okx = k2 in (T - excluded)
+                acc.count(acc.clauses, f"C12.chain_in_T_minus_excluded:{'T' if okx else 'F'}")
+                if not okx and k2 in T:
+                    acc.violation("C12.excluded_returned", "excluded-returned", feats, {"timing": k2, "history": ops[-4:]})
+            elif st == "false":
+                left = T - excluded
+                acc.count(acc.clauses, f"C12.chain_failure_only_when_exhausted:{'T' if not left else 'F'}")
+                if left:
+                    acc.violation("C12.premature_failure", "lost", dict(feats, after=min(len(visited), 3)),
+                                  {"remaining": len(left), "reference": len(T), "history": ops[-6:]})
+                break
     acc.sigs.add(common.h([common.h(spec), mode, case.get("rng")]))
     acc.count(acc.outcomes, f"history_len>={min(len(visited), 5)}")
     acc.sample = {"spec_tasks": spec["tasks"], "reference_size": len(T), "visited": len(visited), "mode": mode,
